@@ -1,8 +1,9 @@
 #!/usr/bin/env python3
-"""store_seed.py <seed dir> <id> <property>: regenerate the patch against the
-current /repo HEAD in a scratch worktree, evaluate it with every quick check
-(applied to /repo and undone straight afterwards) and write
-/verif/seeded/<id>/{patch.diff,demo.py,notes.md,meta.json}."""
+"""store_seed.py <seed dir> <id> <property> [confirmation text]: regenerate
+the patch against the current /repo HEAD in a scratch worktree (removed
+straight afterwards), evaluate it there with every quick check (`--repo
+<worktree>`: /repo itself is not touched, so several can run in parallel) and
+write /verif/seeded/<id>/{patch.diff,demo.py,notes.md,meta.json}."""
 import json, os, re, shutil, subprocess, sys
 src, sid, prop = sys.argv[1:4]
 confirmed = sys.argv[4] if len(sys.argv) > 4 else ""
@@ -11,19 +12,28 @@ os.makedirs(out, exist_ok=True)
 wt = f"/tmp/confirm/store-{sid}"
 subprocess.run(["rm", "-rf", wt])
 subprocess.run(["git", "-C", "/repo", "worktree", "add", "-q", "--detach", wt, "HEAD"], check=True)
+PROPS = ("C01 C02 C03 C04 C05 C06 C07 C08 C09 C10 C11 C12 C13 C14 C15 C16 "
+         "C18 C19 C20").split()
 try:
     r = subprocess.run(["git", "-C", wt, "apply", f"{src}/patch.diff"])
     if r.returncode:
         subprocess.run(["git", "-C", wt, "apply", "--3way", f"{src}/patch.diff"], check=True)
         subprocess.run(["git", "-C", wt, "reset", "-q"])
     diff = subprocess.run(["git", "-C", wt, "diff"], capture_output=True, text=True).stdout
+    ev = ""
+    for p_ in PROPS:
+        o = subprocess.run(["/venv/bin/python", "-m", "sa.run", p_, "--no-evidence",
+                            "--repo", wt], capture_output=True, text=True,
+                           cwd="/verif")
+        for line in (o.stdout + o.stderr).splitlines():
+            if re.match(r"^  C\d+\.", line) or "ANALYSIS-ERROR" in line:
+                ev += f"[{p_}] {line[:260]}\n"
 finally:
     subprocess.run(["git", "-C", "/repo", "worktree", "remove", "--force", wt])
 open(f"{out}/patch.diff", "w").write(diff)
 shutil.copy(f"{src}/demo.py", f"{out}/demo.py")
 if os.path.exists(f"{src}/notes.md"):
     shutil.copy(f"{src}/notes.md", f"{out}/notes.md")
-ev = subprocess.run(["/verif/tools/eval_seed.sh", f"{out}/patch.diff"], capture_output=True, text=True).stdout
 caught = []
 for line in ev.splitlines():
     m = re.match(r"\[(C\d+)\]\s+(\S+) (.+?) @ (\S+?):", line)
@@ -39,8 +49,10 @@ meta = {
     "needs_to_manifest": notes.strip().split("\n\n")[0][:1200],
     "confirmed": {
         "how": "tools/confirm_seed.sh in a scratch worktree of /repo HEAD: demo.py exits 0 on the clean tree, non-zero with the patch, and the unedited test suite passes with the patch",
+        "head": subprocess.run(["git", "-C", "/repo", "rev-parse", "--short", "HEAD"], capture_output=True, text=True).stdout.strip(),
         "result": confirmed,
     },
+    "checks_run": "every registered quick check (/venv/bin/python -m sa.run <Cxx> --repo <scratch worktree with the patch applied>)",
     "detected_by": caught,
     "detected": bool([c for c in caught if "rule" in c]),
 }
